@@ -50,7 +50,8 @@ def expressions(rnd, objs, plain, feats_by_class):
                    'list(%s)[0].' % o, '[y for y in %s][0].' % o, '(%s if %s else 1).' % (o, o),
                    '%s.prop.' % o, '%s.nd.' % o, '%s.dd.' % o, '%s.meth(' % o, '%s(' % o,
                    '%s.lcm.' % o, '%s.lcm(' % o, '%s.csm' % o, '%s.lprop.' % o, '%s.lcm' % o,
-                   '%s.gd.' % o, '%s.gd' % o, '%s.cprop.' % o,
+                   '%s.gd.' % o, '%s.gd' % o, '%s.cprop.' % o, '%s.aprop.' % o, '%s.aprop' % o,
+                   '%s.tprop.' % o, '%s.tprop' % o, '%s.iprop.' % o, '%s.aprop(' % o,
                    'not %s' % o, '%s.i_list[0].' % o, 'next(%s).' % o, 'bool(%s)' % o,
                    'x, y = %s\nx.' % o, '%s.dynamic_one.' % o]
         elif o.startswith('sub_') and o not in ('sub_box', 'sub_iterbox'):
@@ -102,7 +103,7 @@ def run(spec):
     namespace = {k: ns[k] for k in objs}
     exprs = expressions(rnd, objs, plain, feats_by_class)
     rnd.shuffle(exprs)
-    counted_present = any(set(f) & {'property', 'cm_property', 'nondata_desc', 'data_desc', 'meta_property', 'sub_builtin_desc', 'getdel_desc',
+    counted_present = any(set(f) & {'property', 'cm_property', 'ann_property', 'nondata_desc', 'data_desc', 'meta_property', 'sub_builtin_desc', 'getdel_desc',
                                     'meta_desc', 'getitem', 'iter', 'next', 'call', 'len', 'bool'}
                           for f in feats_by_class.values())
     control_moved = False
